@@ -109,7 +109,7 @@ func parseSessionCase(input string) (sessCase, bool) {
 }
 
 func sessOptions(kind byte) repl.Options {
-	o := repl.Options{All: true, ShowEval: true, NoColor: true, NilAndErr: true, MaxDuration: 10 * time.Second}
+	o := repl.Options{All: true, ShowEval: true, NoColor: true, NilAndErr: true, MaxDuration: 2 * time.Second}
 	switch kind {
 	case 't':
 		o.MaxDuration = time.Millisecond
@@ -256,7 +256,8 @@ func sessionRun(input string) string {
 type sessFail struct {
 	kind byte
 	text string
-	// needs: names that the base history must define for this input to fail without side effect
+	// needs: what the base history must define for this input to fail without side effect:
+	// "" nothing, "p" the prelude, "d" the prelude and a small MaxDepth, "m" the macro family
 	needs string
 }
 
@@ -359,6 +360,12 @@ var sessFails = []sessFail{
 	{'t', `for true { for i = i:i+1 { } }`, "p"},
 	{'t', `for true { pure(3) }`, "p"},
 	{'t', `(() => { for true { for u9 = 3 { for v9 = 3 { pure(u9) } } } })()`, "p"},
+	// failures during macro expansion and in expanded code (macros defined in the base history)
+	{'e', `plus1(-"a")`, "m"},
+	{'e', `plus1()`, "m"},
+	{'e', `bad(2)`, "m"},
+	{'e', `plus1(nosuchvar)`, "m"},
+	{'e', `(() => { plus1([0] * (1 << 40)) })()`, "m"},
 	// parse errors and incomplete input
 	{'e', `1 +`, ""},
 	{'e', `)`, ""},
@@ -400,9 +407,13 @@ var sessFamilies = [][]string{
 	{`func setx() { x := 5; x }; setx()`, `x := 1; x`, `func getx() { x }; getx()`, `x = x + 1; getx()`},
 	// memoization interplay: functions whose calls the failing inputs made before failing
 	{`pure(3)`, `pure(1) + pure(2)`, `func pure(n) { n * 3 }`, `pure(3)`, `deep(5)`},
+	// macros (the family the failing inputs marked "m" are used with)
+	{`plus1 = macro(x) { quote(unquote(x) + 1) }`, `bad = macro(x) { 1 }`, `plus1(3)`, `say(plus1(plus1(1)))`, `plus1(len(arr)) + pure(2)`},
 	// results of every printed kind
 	{`nil`, `1.5`, `"str"`, `[1, "a", [2]]`, `{"k": [1]}`, `() => 1`, `1 + "a"`, `true`},
 }
+
+func isMacroFamily(fam []string) bool { return strings.Contains(fam[0], "macro(") }
 
 func sessEmit(emit func(string), opts string, base []string, fails string) {
 	emit(opts + ";" + hexJoin(base) + ";" + fails)
@@ -417,21 +428,41 @@ func sessionGen(tier string, r *rng, emit func(string)) {
 		}
 		return ""
 	}
+	// generated histories may contain unbounded recursion: a moderate MaxDepth keeps its overflow cheap
+	genDepth := func() string { return fmt.Sprintf("d=%d", 500+r.intn(1000)) }
 	// 1. hand-written families: every failing input x every position x multiplicity 1..3 (exhaustive)
 	for _, fam := range sessFamilies {
 		base := append(append([]string{}, sessPrelude...), fam...)
 		first := len(sessPrelude) // failing inputs only after the prelude (they refer to it)
 		for _, f := range sessFails {
-			// quick tier: one position (drawn per failing input) x multiplicity 1..3; thorough: every position
+			if f.needs == "m" && !isMacroFamily(fam) {
+				continue
+			}
+			// thorough: every position x multiplicity 1..3; quick tier: one position (drawn per failing input) x
+			// multiplicity 1 and one of 2, 3
+			first := first
+			if f.needs == "m" {
+				first += 2 // after the macro definitions
+			}
 			only := first + r.intn(len(base)-first+1)
 			for pos := first; pos <= len(base); pos++ {
 				if !thorough && pos != only {
 					continue
 				}
+				skip := 2 + r.intn(2)
 				for mult := 1; mult <= 3; mult++ {
+					if !thorough && mult == skip {
+						continue
+					}
 					sessEmit(emit, optsFor(f), base, sessFailSpec(pos, mult, f))
 				}
 			}
+		}
+	}
+	general := []sessFail{} // usable with any history that starts with the prelude
+	for _, f := range sessFails {
+		if f.needs != "m" {
+			general = append(general, f)
 		}
 	}
 	// 2. many failing inputs in a row (8+ failing loops: the register file has 8 slots), mixed kinds
@@ -457,7 +488,7 @@ func sessionGen(tier string, r *rng, emit func(string)) {
 			var specs []string
 			for pos := len(sessPrelude); pos <= len(base); pos++ {
 				for k := 0; k < 3; k++ {
-					specs = append(specs, sessFailSpec(pos, 1+r.intn(3), sessFails[r.intn(len(sessFails))]))
+					specs = append(specs, sessFailSpec(pos, 1+r.intn(3), general[r.intn(len(general))]))
 				}
 			}
 			sessEmit(emit, fmt.Sprintf("d=%d", 200+r.intn(201)), base, strings.Join(specs, ","))
@@ -466,7 +497,7 @@ func sessionGen(tier string, r *rng, emit func(string)) {
 	// 3. generated base histories (typed program generator of the eval suite, one input per statement)
 	nShort, nLong := 25, 120
 	if thorough {
-		nShort, nLong = 300, 3000
+		nShort, nLong = 200, 2000
 	}
 	standalone := []sessFail{}
 	for _, f := range sessFails {
@@ -481,13 +512,16 @@ func sessionGen(tier string, r *rng, emit func(string)) {
 		withPrelude := r.intn(2) == 0
 		if withPrelude {
 			base = append(append([]string{}, sessPrelude...), base...)
-			f = sessFails[r.intn(len(sessFails))]
+			f = general[r.intn(len(general))]
 		}
 		first := 0
 		if withPrelude {
 			first = len(sessPrelude)
 		}
 		opts := optsFor(f)
+		if opts == "" {
+			opts = genDepth()
+		}
 		for pos := first; pos <= len(base); pos++ {
 			for mult := 1; mult <= 3; mult++ {
 				sessEmit(emit, opts, base, sessFailSpec(pos, mult, f))
@@ -501,11 +535,11 @@ func sessionGen(tier string, r *rng, emit func(string)) {
 		first := 0
 		if r.intn(3) != 0 {
 			base = append(append([]string{}, sessPrelude...), base...)
-			pool = sessFails
+			pool = general
 			first = len(sessPrelude)
 		}
 		var specs []string
-		opts := ""
+		opts := genDepth()
 		for k := 1 + r.intn(6); k > 0; k-- {
 			f := pool[r.intn(len(pool))]
 			if o := optsFor(f); o != "" {
